@@ -225,32 +225,41 @@ func (w *World) Submit(rec *consensusproto.RawRecordWithId) (accepted bool, err 
 }
 
 func (w *World) submit(rec *consensusproto.RawRecordWithId) (accepted bool, rejectErr error, err error) {
-	var firstErr error
-	first := true
-	var newlyStuck []int
+	type res struct {
+		i   int
+		err error
+	}
+	var results []res
 	for i, l := range w.Lists {
 		if w.Stuck[i] {
 			continue
 		}
-		e := l.AddRawRecord(CloneRec(rec))
-		if first {
-			firstErr = e
-			first = false
-			continue
-		}
-		if (e == nil) != (firstErr == nil) {
-			if firstErr == nil && (errors.Is(e, list.ErrFailedToDecrypt) || errors.Is(e, list.ErrIncorrectReadKey)) {
-				newlyStuck = append(newlyStuck, i)
-				continue
-			}
-			return false, nil, fmt.Errorf("replicas disagree on record %s: first err=%v, account%d err=%v", rec.Id, firstErr, i, e)
+		results = append(results, res{i, l.AddRawRecord(CloneRec(rec))})
+	}
+	nOK := 0
+	var firstErr error
+	for _, r := range results {
+		if r.err == nil {
+			nOK++
+		} else if firstErr == nil {
+			firstErr = r.err
 		}
 	}
-	if firstErr != nil {
+	if nOK == 0 {
 		return false, firstErr, nil
 	}
-	for _, i := range newlyStuck {
-		w.Stuck[i] = true
+	// some list accepted: the others must have accepted too, except an account that cannot
+	// unpack key material addressed to it (only the addressee can notice a wrong key) — its
+	// own view no longer follows the log
+	for _, r := range results {
+		if r.err == nil {
+			continue
+		}
+		if errors.Is(r.err, list.ErrFailedToDecrypt) || errors.Is(r.err, list.ErrIncorrectReadKey) {
+			w.Stuck[r.i] = true
+			continue
+		}
+		return false, nil, fmt.Errorf("replicas disagree on record %s: %d accept, account%d err=%v", rec.Id, nOK, r.i, r.err)
 	}
 	w.Records = append(w.Records, rec)
 	return true, nil, nil
